@@ -3,6 +3,7 @@
 updates, Option/Result combinators, iterator adaptors, mem::replace/take, Cell/RefCell, atomics).
 Same rules as models.py: documented contract only; anything else is Unsupported."""
 import re
+import os
 import z3
 
 from values import *
@@ -124,6 +125,11 @@ def _match_at(it, bs, i, pat):
         if not is_sym(c) and not is_sym(want):
             return c == want, w
         return it.truth(to_bv(c, 32) == to_bv(want, 32)), w
+    if kind == 'chars':
+        for want in pat[1]:
+            if (c == want) if (not is_sym(c) and not is_sym(want)) else it.truth(to_bv(c, 32) == to_bv(want, 32)):
+                return True, w
+        return False, w
     r = it.call_callable(pat[1], [c])
     return it.truth(r), w
 
@@ -137,6 +143,11 @@ def _pattern_of(it, p, callee):
         return ('str', p.b)
     if isinstance(p, (Closure, FnItem, PyFn)) or (isinstance(p, Ref) and isinstance(rd(p), (Closure, FnItem, PyFn))):
         return ('pred', p)
+    if isinstance(p, Arr) or isinstance(p, SliceRef) or (hasattr(p, 'items') and not isinstance(p, Str)):
+        # &[char] / [char; N]: matches any of the characters
+        items = [rd(r) for r in p.refs()] if isinstance(p, SliceRef) else list(p.items)
+        if all(isinstance(x, int) or (is_sym(x) and z3.is_bv(x)) for x in items):
+            return ('chars', tuple(items))
     raise Unsupported('string pattern of kind %r in %s' % (type(p).__name__, callee[:60]))
 
 
@@ -705,6 +716,64 @@ def slice_first_last(it, args, callee):
     return Some(refs[0] if callee.endswith('first') else refs[-1])
 
 
+def _stable_sort(it, refs, less_eq):
+    """stable insertion sort of the elements behind `refs`; less_eq(a_ref, b_ref) -> bool (may fork the path)"""
+    vals = [rd(r) for r in refs]
+    out = []
+    for v in vals:
+        cv = Ref(Cell(v, 'sort-elem'), ())
+        pos = len(out)
+        while pos > 0:
+            co = Ref(Cell(out[pos - 1], 'sort-elem'), ())
+            if less_eq(co, cv):
+                break
+            pos -= 1
+        out.insert(pos, v)
+    for r, v in zip(refs, out):
+        wr(r, v)
+    return UNIT
+
+
+def _ord_le(it, o):
+    if not (isinstance(o, Enum) and o.ty == 'Ordering'):
+        raise Unsupported('comparator result %r' % (o,))
+    return o.name != 'Greater'
+
+
+@pattern(r'^(core|std|alloc)::slice::<impl \[.*\]>::(sort_by|sort_unstable_by)::<.*>$')
+def slice_sort_by(it, args, callee):
+    refs = _items_refs(args[0])
+    f = args[1]
+    if 'unstable' in callee and len(refs) > 1:
+        # an unstable sort may order equal elements either way: only decided when no two elements compare equal
+        def le(a, b):
+            o = it.call_callable(f, [a, b])
+            if o.name == 'Equal':
+                raise OutsideModel('sort_unstable_by with elements that compare equal')
+            return _ord_le(it, o)
+        return _stable_sort(it, refs, le)
+    return _stable_sort(it, refs, lambda a, b: _ord_le(it, it.call_callable(f, [a, b])))
+
+
+@pattern(r'^(core|std|alloc)::slice::<impl \[.*\]>::(sort_by_key|sort_by_cached_key)::<.*>$')
+def slice_sort_by_key(it, args, callee):
+    refs = _items_refs(args[0])
+    f = args[1]
+
+    def le(a, b):
+        ka = Ref(Cell(it.call_callable(f, [a]), 'key'), ())
+        kb = Ref(Cell(it.call_callable(f, [b]), 'key'), ())
+        return _ord_le(it, M.generic_cmp(it, ka, kb)) if hasattr(M, 'generic_cmp') else _key_le(it, ka, kb)
+    return _stable_sort(it, refs, le)
+
+
+def _key_le(it, ka, kb):
+    a, b = deref_all(ka), deref_all(kb)
+    if isinstance(a, (int, bool)) or is_sym(a):
+        raise Unsupported('sort_by_key on integer keys of unknown type')
+    raise Unsupported('sort_by_key on keys of kind %s' % type(a).__name__)
+
+
 @pattern(r'^(core|std)::slice::<impl \[.*\]>::get::<usize>$')
 def slice_get(it, args, callee):
     refs = _items_refs(args[0])
@@ -1030,17 +1099,25 @@ def hashmap_clear(it, args, callee):
 @pattern(r'^(std::collections::)?HashMap::<.*>::(iter|keys|values|into_iter|iter_mut|values_mut|drain)$')
 def hashmap_iter(it, args, callee):
     m = deref_all(args[0])
-    if len(m.items) <= 1:
+    if True:
+        # the iteration order of a HashMap is unspecified: insertion order and its reverse are explored (one decision per
+        # path); behaviour that depends on any other order is outside the model
+        order = list(range(len(m.items)))
+        if len(order) > 1 and it.x is not None:
+            if getattr(it.x, 'hash_order', None) is None:
+                v = it.x.bv('hash_order', 1)
+                it.x.hash_order = it.x.choose([v == z3.BitVecVal(0, 1), v == z3.BitVecVal(1, 1)])
+            if it.x.hash_order == 1:
+                order.reverse()
         r = args[0]
         while isinstance(rd(r), Ref):
             r = rd(r)
         name = callee.rsplit('::', 1)[1]
         if name == 'keys':
-            return IterV('refs', tuple(Ref(r.cell, r.path + (('mk', i),)) for i in range(len(m.items))), 0)
+            return IterV('refs', tuple(Ref(r.cell, r.path + (('mk', i),)) for i in order), 0)
         if name in ('values', 'values_mut'):
-            return IterV('refs', tuple(Ref(r.cell, r.path + (('mv', i),)) for i in range(len(m.items))), 0)
-        return IterV('into', tuple(Agg(None, (Ref(r.cell, r.path + (('mk', i),)), Ref(r.cell, r.path + (('mv', i),)))) for i in range(len(m.items))), 0)
-    raise OutsideModel('iteration order of a HashMap with more than one entry is unspecified')
+            return IterV('refs', tuple(Ref(r.cell, r.path + (('mv', i),)) for i in order), 0)
+        return IterV('into', tuple(Agg(None, (Ref(r.cell, r.path + (('mk', i),)), Ref(r.cell, r.path + (('mv', i),)))) for i in order), 0)
 
 
 @pattern(r'^(std::collections::)?HashMap::<.*>::(entry|retain|extend|with_capacity|insert_unique_unchecked|get_or_insert_with|get_key_value)(::<.*>)?$')
@@ -1048,6 +1125,59 @@ def hashmap_other(it, args, callee):
     if '::with_capacity' in callee:
         return MapV(())
     raise Unsupported('HashMap API ' + callee[-50:])
+
+
+# --------------------------------------------------------------------------- HashSet = map to unit
+
+@pattern(r'^(std::collections::)?HashSet::<.*>::(new|with_capacity)$')
+def hashset_new(it, args, callee):
+    return MapV(())
+
+
+@pattern(r'^<(std::collections::)?HashSet<.*> as (Default)>::default$')
+def hashset_default(it, args, callee):
+    return MapV(())
+
+
+@pattern(r'^(std::collections::)?HashSet::<.*>::insert$')
+def hashset_insert(it, args, callee):
+    return M.hashmap_insert(it, [args[0], args[1], UNIT], callee).name == 'None'
+
+
+@pattern(r'^(std::collections::)?HashSet::<.*>::contains::<.*>$')
+def hashset_contains(it, args, callee):
+    return M.hashmap_get(it, args, callee).name == 'Some'
+
+
+@pattern(r'^(std::collections::)?HashSet::<.*>::remove::<.*>$')
+def hashset_remove(it, args, callee):
+    return M.hashmap_remove(it, args, callee).name == 'Some'
+
+
+@pattern(r'^(std::collections::)?HashSet::<.*>::(len)$')
+def hashset_len(it, args, callee):
+    return len(deref_all(args[0]).items)
+
+
+@pattern(r'^(std::collections::)?HashSet::<.*>::(is_empty)$')
+def hashset_is_empty(it, args, callee):
+    return len(deref_all(args[0]).items) == 0
+
+
+@pattern(r'^(std::collections::)?HashSet::<.*>::(clear)$')
+def hashset_clear(it, args, callee):
+    wr(args[0], MapV(()))
+    return UNIT
+
+
+@pattern(r'^(std::collections::)?HashSet::<.*>::(iter|into_iter|drain)$')
+def hashset_iter(it, args, callee):
+    return hashmap_iter(it, args, callee.rsplit('::', 1)[0] + '::keys')
+
+
+@pattern(r'^<(std::collections::)?HashSet<.*> as Clone>::clone$')
+def hashset_clone(it, args, callee):
+    return rd(args[0])
 
 
 @pattern(r'^<(std::collections::)?HashMap<.*> as (Default)>::default$')
@@ -1707,3 +1837,193 @@ def as_ptr(it, args, callee):
 @pattern(r'^<\*(const|mut) .* as PartialEq>::eq$')
 def rawptr_eq(it, args, callee):
     return M.generic_eq(it, args[0], args[1])
+
+
+# =============================================================================== binary floating point (mirsym/fp.py)
+import math
+import fp as FPM
+
+
+def _fty(callee):
+    m = re.search(r'f(32|64)', callee)
+    return 'f' + m.group(1) if m else 'f64'
+
+
+@pattern(r'^(core::|std::)?f(32|64)::<impl f(32|64)>::(trunc|floor|ceil|round|round_ties_even)$')
+def float_round(it, args, callee):
+    mode = callee.rsplit('::', 1)[1]
+    mode = {'round_ties_even': 'even'}.get(mode, mode)
+    return FPM.round_to_integral(args[0], mode, _fty(callee), simp)
+
+
+@pattern(r'^(core::|std::)?intrinsics::(truncf|floorf|ceilf|roundf|round_ties_even_f|rintf|nearbyintf)(32|64)$')
+def float_round_intrinsic(it, args, callee):
+    m = re.search(r'(truncf|floorf|ceilf|roundf|round_ties_even_f|rintf|nearbyintf)(32|64)$', callee)
+    mode = {'truncf': 'trunc', 'floorf': 'floor', 'ceilf': 'ceil', 'roundf': 'round'}.get(m.group(1), 'even')
+    return FPM.round_to_integral(args[0], mode, 'f' + m.group(2), simp)
+
+
+@pattern(r'^(core::|std::)?f(32|64)::<impl f(32|64)>::fract$')
+def float_fract(it, args, callee):
+    ty = _fty(callee)
+    v = args[0]
+    if FPM.is_integral_term(v):
+        # x - trunc(x) with trunc(x) == x: +0.0 for finite x, NaN for an infinity (f64 conversions of <=128-bit integers are finite)
+        S = FPM.SORTS[ty]
+        return simp(z3.If(z3.fpIsInf(v), z3.fpNaN(S), z3.FPVal(0.0, S))) if ty == 'f32' else 0.0
+    return FPM.binop('Sub', v, FPM.round_to_integral(v, 'trunc', ty, simp), ty, simp)
+
+
+@pattern(r'^(core::|std::)?f(32|64)::<impl f(32|64)>::abs$|^(core::|std::)?intrinsics::fabsf(32|64)$')
+def float_abs(it, args, callee):
+    v = args[0]
+    return abs(v) if isinstance(v, float) else simp(z3.fpAbs(v))
+
+
+@pattern(r'^(core::|std::)?f(32|64)::<impl f(32|64)>::(is_nan|is_infinite|is_finite|is_sign_negative|is_sign_positive)$')
+def float_class(it, args, callee):
+    v = args[0]
+    k = callee.rsplit('::', 1)[1]
+    if isinstance(v, float):
+        return {'is_nan': v != v, 'is_infinite': v in (math.inf, -math.inf), 'is_finite': v == v and v not in (math.inf, -math.inf),
+                'is_sign_negative': math.copysign(1.0, v) < 0, 'is_sign_positive': math.copysign(1.0, v) > 0}[k]
+    if k == 'is_nan':
+        return simp(z3.fpIsNaN(v))
+    if k == 'is_infinite':
+        return simp(z3.fpIsInf(v))
+    if k == 'is_finite':
+        return simp(z3.Not(z3.Or(z3.fpIsNaN(v), z3.fpIsInf(v))))
+    if k == 'is_sign_negative':
+        return simp(z3.fpIsNegative(v))
+    return simp(z3.fpIsPositive(v))
+
+
+@pattern(r'^(core::|std::)?f(32|64)::<impl f(32|64)>::powi$|^(core::|std::)?intrinsics::powif(32|64)$')
+def float_powi(it, args, callee):
+    a, n = args
+    if is_sym(a) or is_sym(n):
+        n = it.concretize(n) if is_sym(n) else n
+        if is_sym(a):
+            raise Unsupported('powi of a symbolic float')
+    try:
+        return FPM.powi(a, int(n), _fty(callee))
+    except OverflowError:
+        return math.inf
+
+
+@pattern(r'^(core::|std::)?f(32|64)::<impl f(32|64)>::(max|min)$')
+def float_minmax(it, args, callee):
+    a, b = args
+    if isinstance(a, float) and isinstance(b, float):
+        if a != a:
+            return b
+        if b != b:
+            return a
+        return max(a, b) if callee.endswith('max') else min(a, b)
+    ty = _fty(callee)
+    A, B = FPM.to_z3(a, ty), FPM.to_z3(b, ty)
+    return simp(z3.fpMax(A, B) if callee.endswith('max') else z3.fpMin(A, B))
+
+
+@pattern(r'^<f64 as From<(f32|i8|i16|i32|u8|u16|u32)>>::from$|^<f32 as From<(i8|i16|u8|u16)>>::from$')
+def float_from(it, args, callee):
+    m = re.match(r'^<(f32|f64) as From<(\w+)>>', callee)
+    toty, fromty = m.group(1), m.group(2)
+    if fromty == 'f32':
+        return FPM.float_to_float(args[0], 'f32', 'f64', simp)
+    w, signed = INT_TYPES[fromty]
+    return FPM.int_to_float(args[0], w, signed, toty, simp)
+
+
+def _dec_bv128(it, d):
+    """|mantissa| of a Dec as a 128-bit vector term (fresh variable tied to the Int term when symbolic) and the sign"""
+    m = d.m
+    if not is_sym(m):
+        return abs(int(m)), (m < 0 or (m == 0 and d.src == 'negzero'))
+    if d.src is not None and d.src != 'negzero' and isinstance(d.src, tuple) and d.src[0] == 'bv':
+        v, signed = d.src[1], d.src[2]
+        w = v.size()
+        ext = z3.SignExt(128 - w, v) if signed else z3.ZeroExt(128 - w, v)
+        neg = it.truth(ext < 0)
+        return (simp(-ext) if neg else ext), neg
+    if not os.environ.get('VERIF_FP_INT_TIE'):
+        # tying a fresh bit-vector to an integer-sorted mantissa (bv2int) and feeding it to float conversions is not decided
+        # by z3 within the time caps; bit-vector sourced numbers (kinds i64 / i128 of the harnesses) are
+        raise OutsideModel('Decimal::to_f64 of an integer-sorted symbolic mantissa')
+    neg = it.truth(m < 0)
+    a = simp(-m) if neg else m
+    if it.x is None:
+        raise Unsupported('symbolic decimal to float without exploration context')
+    k = getattr(it.x, '_fpk', 0)
+    it.x._fpk = k + 1
+    bv = it.x.bv('dec2f_%d' % k, 128)
+    it.x.add(z3.BV2Int(bv, False) == a)
+    return bv, neg
+
+
+@pattern(r'^<rust_decimal::Decimal as (rust_decimal::prelude::|num_traits::)?ToPrimitive>::to_f64$')
+def dec_to_f64(it, args, callee):
+    """rust_decimal 1.31 ToPrimitive::to_f64: scale 0 -> (i128 as f64); else integral + frac/10^s, times 10^s, round, / 10^s"""
+    d = deref_all(args[0])
+    mag, neg = _dec_bv128(it, d)
+    s = d.s
+    if s == 0:
+        if isinstance(mag, int):
+            return Some(FPM.from_int(-mag if neg else mag, 'f64'))
+        f = FPM.int_to_float(mag, 128, False, 'f64', simp)
+        return Some(simp(z3.fpNeg(f)) if neg else f)
+    prec = 10 ** s
+    round_to = FPM.powi(10.0, s, 'f64')
+    if isinstance(mag, int):
+        ip, fpart = divmod(mag, prec)
+        frac = FPM.from_int(fpart, 'f64') / FPM.from_int(prec, 'f64')
+        value = (-1.0 if neg else 1.0) * (FPM.from_int(ip, 'f64') + frac)
+        return Some(FPM.round_to_integral(value * round_to, 'round', 'f64', simp) / round_to)
+    if not os.environ.get('VERIF_FP_SCALED'):
+        # 128-bit division by 10^s feeding two float divisions and a rounding: z3 does not decide it within the time caps
+        raise OutsideModel('Decimal::to_f64 of a symbolic decimal with a fraction part')
+    P = z3.BitVecVal(prec, 128)
+    ip = FPM.int_to_float(simp(z3.UDiv(mag, P)), 128, False, 'f64', simp)
+    fpart = FPM.int_to_float(simp(z3.URem(mag, P)), 128, False, 'f64', simp)
+    S = FPM.SORTS['f64']
+    frac = z3.fpDiv(FPM.RNE, fpart, z3.FPVal(FPM.from_int(prec, 'f64'), S))
+    value = z3.fpMul(FPM.RNE, z3.FPVal(-1.0 if neg else 1.0, S), z3.fpAdd(FPM.RNE, ip, frac))
+    rt = z3.FPVal(round_to, S)
+    return Some(simp(z3.fpDiv(FPM.RNE, z3.fpRoundToIntegral(z3.RNA(), z3.fpMul(FPM.RNE, value, rt)), rt)))
+
+
+# the older catch-all (to_f32 / to_f64 unsupported) now only answers for to_f32
+M.PATTERNS[:] = [(rx, f) for (rx, f) in M.PATTERNS if not (getattr(f, '__module__', '') == 'models' and getattr(f, '__name__', '') in ('dec_to_float', 'dec_from_float'))]
+
+
+@pattern(r'^<rust_decimal::Decimal as (rust_decimal::prelude::|num_traits::)?ToPrimitive>::to_f32$')
+def dec_to_f32(it, args, callee):
+    raise Unsupported('Decimal::to_f32 (not modelled)')
+
+
+@pattern(r'^<rust_decimal::Decimal as (rust_decimal::prelude::|num_traits::)?FromPrimitive>::from_f(32|64)$')
+def dec_from_float(it, args, callee):
+    """rust_decimal 1.31 FromPrimitive::from_f32/from_f64: None for NaN / infinities; a whole number below 2^96 converts
+    exactly (base2_to_decimal loses no digit when the binary exponent is non-negative, and trims excess digits only behind
+    the point); fractional inputs go through its digit-trimming loop, which is not modelled (outside)."""
+    ty = 'f' + re.search(r'from_f(32|64)$', callee).group(1)
+    v = args[0]
+    lim = float(1 << 96)
+    if isinstance(v, float):
+        if v != v or v in (math.inf, -math.inf):
+            return NONE
+        if v == math.floor(v):
+            if abs(v) >= lim:
+                return NONE
+            return Some(Dec(int(v), 0))
+        raise OutsideModel('Decimal::from_f64 of a fractional float (digit trimming not modelled)')
+    if it.truth(z3.Or(z3.fpIsNaN(v), z3.fpIsInf(v))):
+        return NONE
+    whole = z3.fpEQ(z3.fpRoundToIntegral(z3.RTZ(), v), v)
+    if not it.truth(whole):
+        raise OutsideModel('Decimal::from_f64 of a fractional float (digit trimming not modelled)')
+    S = FPM.SORTS[ty]
+    if it.truth(z3.fpGEQ(z3.fpAbs(v), z3.FPVal(lim, S))):
+        return NONE
+    bv = simp(z3.fpToSBV(z3.RTZ(), v, z3.BitVecSort(128)))
+    return Some(Dec(z3.BV2Int(bv, True), 0, ('bv', bv, True)))
